@@ -20,8 +20,8 @@ import (
 
 // idxRec is the stored value type of the index scenarios.
 type idxRec struct {
-	K string `json:"k"` // index "k" key; "" = not indexed
-	N string `json:"n"` // index "n" key
+	K string `json:"k,omitempty"` // index "k" key; "" = not indexed (and omitted from the stored JSON)
+	N string `json:"n,omitempty"` // index "n" key
 	V int    `json:"v"`
 }
 
